@@ -16,7 +16,9 @@ import tempfile
 
 import torch
 
-from common import BUILD, Infra, Run, err_class, main_guard, parse_sx, sx, time_limit
+import re
+
+from common import BUILD, LEAN, Infra, Run, err_class, main_guard, parse_sx, sx, time_limit
 import c07_probe as P
 import c07_ops as O
 
@@ -196,6 +198,8 @@ def run_case(run: Run, spec, tmp):
     case = {"kind": kind, "layout": layout, "history": hist, "op": opname, "row": row, "variant": variant, "seed": seed, "class": cls, "doc_class": doc}
     if chain:
         case["chain"] = chain
+    if cls in (None, "excluded"):
+        return None, None, {"case": case, "status": "excluded"}
     cont = P.Container(kind, layout, rng, tmp=tmp)
     apply_history(cont, hist, rng)
     ctx = O.Ctx(cont, rng, variant)
@@ -521,7 +525,7 @@ def run_case(run: Run, spec, tmp):
         for n, t in res_leaves:
             if t.numel() == 0:
                 continue
-            shares = t.untyped_storage().data_ptr() in {tt.untyped_storage().data_ptr() for _, tt in list(self0) + list(cont.extra) if tt.numel()}
+            shares = world.sid_of(t, create=False) in {world.sid_of(tt, create=False) for _, tt in list(self0) + list(cont.extra) if tt.numel()}   # storage identity: address, or file for memory-mapped tensors
             if ocls == "view" and not shares:
                 verdicts.append(f"view op returned entry {n} in a storage of its own (copied)")
             if ocls == "copy" and shares:
@@ -583,7 +587,7 @@ def run_case(run: Run, spec, tmp):
             s = srcmap.get(n)
             if s is None or s.numel() == 0:
                 continue
-            same = t.untyped_storage().data_ptr() == s.untyped_storage().data_ptr()
+            same = world.sid_of(t, create=False) == world.sid_of(s, create=False)
             if same != bool(s.is_contiguous()):
                 verdicts.append(f"contiguous(): entry {n} contiguous={s.is_contiguous()} but shares={same}")
     req = sx("c07.run", init, ["steps"] + steps)
@@ -890,10 +894,19 @@ def main():
                 "after random preceding histories; a case is non-trivial if the operation ran (did not raise) and at least one leaf with elements was observed")
     run.trusted += [
         "Model/C07Table.lean: the classification of each public operation by its documentation is transcribed by hand (the theorems say what each class does to memory; the probe says each operation behaves as its class)",
+        "harness/c07_gen.py (reflection + ast: public API list, source hints foreachInplace/foreachOut/lockBlocked/doc*, sha1 of the normalised ast of the transcribed functions -> Gen/C07Api.lean)",
         "harness/c07_probe.py abstraction function (untyped_storage().data_ptr(), storage_offset, strides -> storage id + element offsets)",
         "torch itself for tensor-level views/copies of leaves (Tensor.__getitem__, .clone, .contiguous, copy_)",
     ]
     run.assumptions += ["values are compared as bit-exact tokens; aliasing judged by sentinel writes as the property prescribes"]
+    # regenerate the source-derived parts of the tie (public API, source hints, shapes of the transcribed functions)
+    import c07_gen
+    import gen_tables
+    rows = [m.group(1) for m in re.finditer(r'\("([^"]+)", \.', (LEAN / "TdVerif/Model/C07Table.lean").read_text().split("def classTable")[1].split("def classOf")[0])]
+    try:
+        gen_tables.write_if_changed("C07Api.lean", c07_gen.gen_api(rows))
+    except Exception as e:
+        run.proof_broken.append(f"generator:C07Api:{type(e).__name__}:{e}")
     run.build_and_audit(["TdVerif.Props.C07"])
     if run.tier == "thorough":
         run.leanchecker(["TdVerif.Props.C07", "TdVerif.Lemmas.C07Storage", "TdVerif.Lemmas.C07Table", "TdVerif.Model.C07Storage", "TdVerif.Model.C07Table"])
@@ -961,6 +974,13 @@ def main():
             if chain is None and op2 is None and table[op] in ("outOfPlace", "copy") and rng.random() < 0.6:
                 post = rng.choice(POSTS)
             specs.append((kind, layout, hist, op, rng.randrange(64), rng.randrange(1 << 30), chain, op2, post))
+    # memory-mapped containers: second mappings of the same files (aliasing through the file)
+    for op in ("load_memmap", "memmap_like", "memmap", "memmap_refresh_"):
+        if op in O.R:
+            for _ in range(4 if quick else 30):
+                hist = [rng.choice(HIST_LOCKED) for _ in range(rng.choice([0, 1, 2]))]
+                chain = rng.choice(CHAINS) if (op == "load_memmap" and rng.random() < 0.5) else None
+                specs.append(("memmap", rng.choice(["contiguous", "zero_feat", "mixed"]), hist, op, rng.randrange(64), rng.randrange(1 << 30), chain, None, None))
     # every out-of-place arithmetic method x every operand / kwarg combination on locked containers with warm caches,
     # followed by an in-place operation on the container
     arith = [k for k in sorted(probed) if table[k] == "outOfPlace" and k in (O.UNARY + O.BINARY + ["lerp", "addcdiv", "addcmul", "clamp", "where", "masked_fill", "apply", "named_apply"])]
